@@ -554,3 +554,182 @@ REGISTRY = {
     "C05": dict(module="Properties_C05", run=run_c05),
     "C04": dict(module="Properties_C04", run=run_c04),
 }
+
+
+# ------------------------------------------------------------------------------------------
+# C07: typed get/set conversion grid
+
+C07_STORE = {
+    "i": [0, 1, -1, 2**31 - 1, -2**31, 2**24 + 1, 16777217, -16777217, 255],
+    "l": [0, 1, -1, 2**31 - 1, 2**31, -2**31, -2**31 - 1, 2**24 + 1, 2**53 + 1, 2**63 - 1, -2**63, 2**32],
+    "f": [0x0000000000000000, 0x8000000000000000, 0x3ff0000000000000, 0xbff8000000000000, 0x41dfffffffc00000,
+          0xc1e0000000000000, 0x41e0000000000000, 0x4340000000000001, 0x3fe0000000000000, 0x43d0000000000000,
+          0x4170000010000000, 0x7fefffffffffffff, 0x0000000000000001],
+    "b": [0, 1, 2, -1],
+    "s": ["-", hx(b""), hx(b"abc"), hx(b"1"), hx(b"true")],
+}
+KTY = {"i": 2, "l": 3, "f": 4, "b": 6, "s": 5}
+
+
+def c07_val(k, v):
+    if k == "f":
+        return "x%016x" % v
+    return str(v)
+
+
+def c07_castable(bits, k):
+    lo, hi = (-2**31, 2**31 - 1) if k == "i" else (-2**63 + 2048, 2**63 - 2048)
+    return gen_api.float_castable(bits, lo, hi)
+
+
+def c07_cases():
+    """The full grid: stored type x stored value x auto-convert x (every getter family, every setter kind x value)."""
+    cases = []
+    for auto in (0, 1):
+        for st in "ilfbs":
+            for sv in C07_STORE[st]:
+                pre = ["init", "option 1 %d" % auto,
+                       "add . %s %d" % (hx(b"s"), KTY[st]), "set %s 0 %s" % (st, c07_val(st, sv)),
+                       "add . %s 8" % hx(b"l"), "eset %s 1 -1 %s" % (st, c07_val(st, sv)),
+                       "add . %s 7" % hx(b"a"), "eset %s 2 -1 %s" % (st, c07_val(st, sv)), "dump"]
+                body = list(pre)
+                for k in "ilfbs":
+                    if st == "f" and k in "il" and auto and not c07_castable(sv, k):
+                        continue       # (int)double outside its defined domain
+                    body += ["get %s 0" % k, "mlook %s . %s" % (k, hx(b"s")), "plook %s %s" % (k, hx(b"s")),
+                             "eget %s 1 0" % k, "eget %s 2 0" % k, "plook %s %s" % (k, hx(b"l.[0]")),
+                             "mlook %s . %s" % (k, hx(b"nosuch")), "eget %s 1 5" % k]
+                cases.append("\n".join(body) + "\n")
+                for k in "ilfbs":
+                    for v in C07_STORE[k]:
+                        if k == "f" and st in "il" and auto and not c07_castable(v, st):
+                            continue
+                        body = list(pre) + ["set %s 0 %s" % (k, c07_val(k, v)), "dump",
+                                            "get %s 0" % st if not (st == "f" and False) else "dump",
+                                            "eset %s 1 0 %s" % (k, c07_val(k, v)), "eset %s 2 0 %s" % (k, c07_val(k, v)),
+                                            "dump", "eset %s 2 -1 %s" % (k, c07_val(k, v)), "dump"]
+                        cases.append("\n".join(body) + "\n")
+    return cases
+
+
+def c07_oracle(script, rec):
+    """Documented conversion rules evaluated on the implementation's transcript (independent of the model)."""
+    bad = died(script, rec)
+    al = align(script, rec["impl"])
+    ops = [op for op, _ in al]
+    outs = {i: out for i, (op, out) in enumerate(al)}
+    # stored setting: ops[2] = add . s T ; ops[3] = set T 0 V
+    try:
+        st = ops[3].split(" ")[1]
+        sv = ops[3].split(" ")[3]
+        auto = int(ops[1].split(" ")[2])
+    except Exception:
+        return bad
+    import struct
+
+    def fval(tok):
+        return struct.unpack("<d", struct.pack("<Q", int(tok[1:], 16)))[0]
+
+    def stored_number():
+        if st in "il":
+            return int(sv)
+        if st == "f":
+            return fval(sv)
+        return None
+
+    for i, (op, out) in enumerate(al):
+        f = op.split(" ")
+        if not out or i < 9:
+            continue
+        r = out[0][2:]
+        if f[0] == "set" and f[2] == "0" and len(f) == 4:
+            k, v = f[1], f[3]
+            # expected success by the documented rules
+            if k == st:
+                exp = True
+            elif {k, st} == {"i", "l"}:
+                exp = (-2**31 <= int(v) <= 2**31 - 1) if st == "i" else True
+            elif k in "ilf" and st in "ilf" and (k == "f" or st == "f"):
+                exp = bool(auto)
+            else:
+                exp = False
+            if (r == "i1") != exp:
+                bad.append("'%s' on a stored %s with auto-convert %d returned %s, documented rule says %s" % (
+                    op, st, auto, r, "success" if exp else "failure"))
+            # exactness of int -> float
+            if r == "i1" and st == "f" and k == "i":
+                root, _, _, _ = parse_dump(outs[i + 1]) if ops[i + 1] == "dump" else (None, None, None, None)
+                if root is not None and root.kids and root.kids[0].val.startswith("f"):
+                    if fval(root.kids[0].val) != float(int(v)):
+                        bad.append("'%s' stored %r, not exactly %s" % (op, fval(root.kids[0].val), v))
+            if r == "i0" and ops[i + 1] == "dump":
+                root, _, _, _ = parse_dump(outs[i + 1])
+                if root is not None and root.kids and (root.kids[0].val != (("f" + sv[1:]) if st == "f" else
+                                                       {"i": "i", "l": "l", "b": "b", "s": "s"}[st] + sv)
+                                                       or root.kids[0].ty != KTY[st]):
+                    bad.append("'%s' failed but the stored value/type changed to %s" % (op, root.kids[0].val))
+        if f[0] in ("mlook", "plook") and r.startswith("k0") and "CHANGED" in r:
+            bad.append("'%s' failed but wrote to the output variable" % op)
+        if f[0] == "get" and f[2] == "0" and i < len(ops) and ops[3].startswith("set") and i > 8 and ops[i - 1] == "dump" and len(f) == 3:
+            pass
+    # read-back of the stored value through all families must agree
+    fam = {}
+    for i, (op, out) in enumerate(al):
+        f = op.split(" ")
+        if not out:
+            continue
+        r = out[0][2:]
+        if f[0] == "get" and len(f) == 3 and f[2] == "0" and i >= 9:
+            fam.setdefault(f[1], {})["get"] = r
+        elif f[0] == "mlook" and f[3] == hx(b"s"):
+            fam.setdefault(f[1], {})["mlook"] = r
+        elif f[0] == "plook" and f[2] == hx(b"s"):
+            fam.setdefault(f[1], {})["plook"] = r
+        elif f[0] == "plook" and f[2] == hx(b"l.[0]"):
+            fam.setdefault(f[1], {})["plook_elem"] = r
+        elif f[0] == "eget" and f[2] == "1" and f[3] == "0":
+            fam.setdefault(f[1], {})["eget_list"] = r
+        elif f[0] == "eget" and f[2] == "2" and f[3] == "0":
+            fam.setdefault(f[1], {})["eget_array"] = r
+    zero = {"i": "i0", "l": "i0", "b": "i0", "f": "f0000000000000000", "s": "s-"}
+    for k, d in fam.items():
+        if len(d) < 6:
+            continue
+        look = d["mlook"]
+        if not (d["plook"] == look == d["plook_elem"]):
+            bad.append("lookup families disagree for kind %s: %s" % (k, d))
+        direct = d["get"]
+        if not (d["eget_list"] == direct == d["eget_array"]):
+            bad.append("direct/element getters disagree for kind %s: %s" % (k, d))
+        if look.startswith("k1 "):
+            if look[3:] != direct:
+                bad.append("lookup value %s differs from direct getter %s (kind %s)" % (look, direct, k))
+        elif look.startswith("k0"):
+            if direct != zero[k]:
+                bad.append("failed lookup but direct getter returned %s (kind %s)" % (direct, k))
+    return bad
+
+
+def run_c07(ctx):
+    res = Result()
+    rc = replay_cases(ctx)
+    cases = rc if rc is not None else c07_cases()
+    if rc is None:
+        res.exhaustive = True
+        rng = ctx.rng
+        # random values beyond the boundary grid
+        for i in range(200 if ctx.tier == "quick" else 4000):
+            cases.append(gen_api.random_history(rng, 40, opts=rng.choice([0x16, 0x17])))
+    res.rule = ("the full grid stored type {int,int64,float,bool,string} x boundary value x auto-convert {off,on} x "
+                "(every getter family: direct, by name, by path, element of list, element of array) and x "
+                "(every setter kind x boundary value, direct and element incl. append), enumerated exhaustively; plus "
+                "random histories; distinct = SHA-1 of script")
+    res.distinct = distinct_count(cases)
+    res.distribution["ops"] = summarize_ops(cases)
+    res.samples = [cases[0], cases[len(cases) // 2]]
+    correspond(ctx, res, cases, drop_prefixes=("E ", "A "), oracle=c07_oracle,
+               known=lambda s, r, o: match_known("C07", s, r, o))
+    return res
+
+
+REGISTRY["C07"] = dict(module="Properties_C07", run=run_c07)
